@@ -87,6 +87,18 @@ AnyProgs ==
                       <<Pr(<<ECallB("len", <<EVar("xs", TArr(T_any))>>)>>),
                         SFor("e", "arr", <<EVar("xs", TArr(T_any))>>, <<Pr(<<TypeOf(EVar("e", T_any)), EVar("e", T_any)>>)>>)>>)>>, <<>>) }
 
+\* --- (c1) == and != on any values of every pair of dynamic types (composites of the same length with different
+\*          element types included), directly, inside []any and inside {}any: a bool, never a crash
+EqVals == { Num(1), EStr(<<97>>), EBool(TRUE), EArr(<<Num(1), Num(2)>>), EArr(<<EStr(<<120>>), EStr(<<121>>)>>), EArr(<<EBool(TRUE), EBool(FALSE)>>),
+            EArr(<<EArr(<<Num(1)>>), EStr(<<97>>)>>), EArr(<<EArr(<<EBool(TRUE)>>), EStr(<<97>>)>>), EArr(<<>>), EArr(<<EArr(<<Num(1)>>), EArr(<<Num(2)>>)>>),
+            EMap(<<K(97)>>, <<Num(1)>>), EMap(<<K(97)>>, <<EStr(<<115>>)>>), EMap(<<K(97)>>, <<EArr(<<Num(1)>>)>>), EMap(<<>>, <<>>) }
+YA == EVar("y", T_any)
+AnyEqProg(v, w) ==
+  P1(<<SDecl("x", T_any), SDecl("y", T_any), SAsg(XA, v), SAsg(YA, w),
+       Pr(<<EBin("==", XA, YA), EBin("!=", XA, YA), EBin("==", YA, XA), EBin("==", EArr(<<XA, Num(1)>>), EArr(<<YA, Num(1)>>)),
+            EBin("==", EMap(<<K(107)>>, <<XA>>), EMap(<<K(107)>>, <<YA>>)), TypeOf(XA), TypeOf(YA)>>)>>)
+AnyEqProgs == {AnyEqProg(v, w) : v \in EqVals, w \in EqVals}
+
 \* --- (c2) a block-local variable that shadows an outer variable of ANOTHER type, in every kind of block;
 \*          the outer variable is used with its own type afterwards
 ShadowBlocks(inner) ==
@@ -145,6 +157,9 @@ Extreme ==
   \cup {P1(<<SCall(ECallB("gridn", <<n, EStr(<<114>>)>>)), SCall(ECallB("grid", <<>>)), SCall(ECallB("text", <<EStr(<<60, 38>>)>>)), Pr(<<Num(1)>>)>>) : n \in {Num(10), Num(0), NaNE, EUn("-", Num(5))}}
   \cup {P1(<<SCall(ECallB("printf", <<EStr(f), Num(1)>>)), Pr(<<Num(1)>>)>>) :
           f \in {<<37, 100>>, <<37, 42, 100>>, <<37, 91, 53, 93, 118>>, <<37>>, <<37, 118, 37, 118>>, <<37, 33>>, <<37, 57, 57, 57, 57, 118>>, <<37, 46, 42, 102>>}}
+  \* test with every number of arguments, a third argument that is / is not a string, a comparison that holds / fails
+  \cup {P1(<<SCall(ECallB("test", SubSeq(<<a, b, c, Num(4), EStr(<<122>>)>>, 1, n))), Pr(<<Num(1)>>)>>) :
+          n \in 2..5, a \in {Num(1)}, b \in {Num(1), Num(2)}, c \in {EStr(<<109, 37, 118>>), Num(3), EArr(<<Num(1)>>), EBool(TRUE)}}
   \cup {P1(<<SCall(ECallB("test", <<Num(1), Num(2), EStr(<<37, 100, 37, 118>>), EStr(<<120>>)>>)), Pr(<<Num(1)>>)>>),
         P1(<<Pr(<<ECallB("split", <<EStr(<<97, 228, 98>>), EStr(<<>>)>>)>>), Pr(<<ECallB("repr", <<ECallB("replace", <<EStr(<<97, 98>>), EStr(<<>>), EStr(<<120>>)>>)>>)>>)>>),
         P1(<<SDecl("m", TMap(T_num)), SCall(ECallB("del", <<EVar("m", TMap(T_num)), EStr(<<120>>)>>)), Pr(<<EVar("m", TMap(T_num))>>)>>),
@@ -154,6 +169,7 @@ Extreme ==
 FamCases == {MkCase("FamSound", "infer", p) : p \in InferProgs}
             \cup {MkCase("FamSound", "conv", p) : p \in ConvProgs}
             \cup {MkCase("FamSound", "assert", p) : p \in AssertProgs \cup AnyProgs \cup KeepTag}
+            \cup {MkCase("FamSound", "any-equality", p) : p \in AnyEqProgs}
             \cup {MkCase("FamSound", "shadow", p) : p \in ShadowProgs}
             \cup {MkCase("FamSound", "extreme", p) : p \in Extreme}
 FamInit == InitWith(FamCases)
